@@ -214,6 +214,14 @@ def run(ctx):
         ('quaternion_schur_pure_implicit', lambda a: schur.quaternion_schur_pure_implicit(a[0], max_iter=5), [S]), ('quaternion_schur_unified', lambda a: schur.quaternion_schur_unified(a[0], variant='aed', max_iter=5), [S]),
         ('quaternion_schur_unified[ds]', lambda a: schur.quaternion_schur_unified(a[0], variant='ds', max_iter=5), [S]), ('quaternion_schur_unified[hermitian,aed]', lambda a: schur.quaternion_schur_unified(a[0], variant='aed', max_iter=8), [Hm]),
         ('quaternion_schur_experimental', lambda a: schur.quaternion_schur_experimental(a[0], max_iter=5), [S]), ('quaternion_schur_experimental[francis_ds]', lambda a: schur.quaternion_schur_experimental(a[0], variant='francis_ds', max_iter=5), [S]),
+        # the diagnostics record that the drivers return on request: it belongs to that call (it must not contain the records of earlier calls, and
+        # a record already handed out must not change when the routine is called again)
+        ('quaternion_schur[diagnostics]', lambda a: schur.quaternion_schur(a[0], max_iter=5, return_diagnostics=True), [S]),
+        ('quaternion_schur_pure[diagnostics]', lambda a: schur.quaternion_schur_pure(a[0], max_iter=5, return_diagnostics=True), [S]),
+        ('quaternion_schur_pure_implicit[diagnostics]', lambda a: schur.quaternion_schur_pure_implicit(a[0], max_iter=5, return_diagnostics=True), [S]),
+        ('quaternion_schur_unified[rayleigh,diagnostics]', lambda a: schur.quaternion_schur_unified(a[0], variant='rayleigh', max_iter=5, return_diagnostics=True), [S]),
+        ('quaternion_schur_unified[aed,diagnostics]', lambda a: schur.quaternion_schur_unified(a[0], variant='aed', max_iter=5, return_diagnostics=True), [S]),
+        ('quaternion_schur_experimental[diagnostics]', lambda a: schur.quaternion_schur_experimental(a[0], max_iter=5, return_diagnostics=True), [S]),
         ('Hess_QR_ggivens', lambda a: utils.Hess_QR_ggivens(*a), [np.vstack([np.triu(rs.rand(4, 3), -1) for _ in range(4)])]), ('UtriangleQsparse', lambda a: utils.UtriangleQsparse(*a), Rt + bt),
         ('tensor_frobenius_norm', lambda a: tensor.tensor_frobenius_norm(*a), [T3]), ('tensor_entrywise_abs', lambda a: tensor.tensor_entrywise_abs(*a), [T3]), ('normQ', lambda a: utils.normQ(*a), [A]),
         ('induced_matrix_norm_1', lambda a: utils.induced_matrix_norm_1(*a), [A]), ('induced_matrix_norm_inf', lambda a: utils.induced_matrix_norm_inf(*a), [A]), ('spectral_norm_2', lambda a: utils.spectral_norm_2(*a), [A]),
@@ -263,7 +271,7 @@ def run(ctx):
         before = [digest(a) for a in args]
         np.random.seed(5); poison(1.2345e300)
         try:
-            with contextlib.redirect_stdout(io.StringIO()): r1 = digest(f(args))
+            with contextlib.redirect_stdout(io.StringIO()): res1 = f(args); r1 = digest(res1)
         except Exception as e:
             viol(f'C14:{name}:raises', f'{name} raised {e!r} on an in-domain argument', {}); continue
         after = [digest(a) for a in args]
@@ -273,6 +281,7 @@ def run(ctx):
             np.random.seed(5); poison(float('nan'))
             with contextlib.redirect_stdout(io.StringIO()): r2 = digest(f(args))
             if r1 != r2: viol(f'C14:{name}:not-repeatable', f'{name} returns different bits when the call is repeated (same global seed, same untouched arguments; freed heap blocks refilled in between)', {'function': name})
+            if digest(res1) != r1: viol(f'C14:{name}:result-changed-later', f'the value {name} returned earlier changed when the routine was called again', {'function': name})
         # the answer depends on the CONTENT of the arguments, not on which array object carries it: compute the answer for doubled copies,
         # call on the originals, double the originals in place, call again on the same objects (a cache keyed by identity would answer stale)
         if not changed and name not in documented_inplace and all(isinstance(a, np.ndarray) for a in args):
